@@ -78,8 +78,9 @@ Definition mk_item (kms : (bytes * bytes) * bytes) : item :=
 Definition halfagg_inc (aggsig : option bytes) (alen : option Z) (pks msgs sigs : option (list bytes))
                        (n_before n_new : Z) : list arg :=
   match aggsig, alen with
-  | None, _ => [AInt 0; AIll 1]
-  | Some _, None => [AInt 0; AIll 1]
+  | None, _ | _, None =>       (* ARG_CHECK(aggsig != NULL), ARG_CHECK(aggsig_len != NULL) *)
+    [AInt 0; match alen with Some l => AInt l | None => ANone end;
+     match aggsig with Some a => ABytes a | None => ANone end; AIll 1]
   | Some agg, Some len =>
     let ill := [AInt 0; AInt len; ABytes agg; AIll 1] in
     let n := (n_before + n_new) mod size_max in
